@@ -83,6 +83,22 @@ ValEq(e, d, dec, rgs, lfs, cobj) ==
                        /\ (d.typed => d.type = dec[loc.ri].st)
     [] OTHER -> TRUE
 
+(* ---------------- C07: the origin every object carries -------------------- *)
+\* the defining origin of a logical file is the first ORIGIN object added to it; DefOrigin is the origin field it is written with
+\* (-1: there is none, or it cannot be located -- other clauses speak then)
+DefOrigin(dec, rgs, lfs, cobj, lf) ==
+  LET orgs == SelectSeq(cobj, LAMBDA c : c.lf = lf /\ c.cls = sORIGIN) IN
+  IF Len(orgs) = 0 THEN -1
+  ELSE LET loc == Locate(dec, rgs, lfs, cobj, orgs[1]) IN
+       IF loc.ok THEN dec[loc.ri].objs[loc.oi].origin ELSE -1
+
+\* "the defining origin unless the user chose another": c.origin is the user's choice (-1: none made).  An ORIGIN object
+\* without a choice carries a number the writer picks; any is right.
+OriginChosen(dec, rgs, lfs, cobj, c, o) ==
+  IF c.origin >= 1 THEN o.origin = c.origin
+  ELSE IF c.cls = sORIGIN THEN TRUE
+  ELSE LET d == DefOrigin(dec, rgs, lfs, cobj, c.lf) IN d = -1 \/ c.origin = 0 \/ o.origin = d
+
 (* ---------------- C05 / C18 / C20: objects and attributes ---------------- *)
 AssignedLabels(c) == { c.attrs[i].label : i \in { x \in DOMAIN c.attrs : c.attrs[x].has_val \/ c.attrs[x].has_units } }
 
@@ -111,6 +127,7 @@ ObjectClauses(dec, rgs, lfs, cobj, c, anyRejected) ==
                                         /\ << r.st, r.labels[i] >> \notin AllowedAddition }
   IN UNION { one(c.attrs[i]) : i \in DOMAIN c.attrs }
      \cup (IF extra = {} THEN {} ELSE Flag("C05.UnassignedAbsent", << c.name, { r.labels[i] : i \in extra } >>))
+     \cup (IF OriginChosen(dec, rgs, lfs, cobj, c, o) THEN {} ELSE Flag("C07.OriginChosen", << c.name, c.origin, o.origin >>))
 
 (* every decoded set of logical file k holds exactly the objects Canon puts there *)
 InventoryClauses(dec, rgs, lfs, cobj, anyRejected) ==
@@ -135,6 +152,10 @@ HeaderClauses(dec, rgs, lfs, cobj) ==
                IN IF rg.from + 1 <= rg.to /\ dec[rg.from + 1].k = "E" /\ dec[rg.from + 1].st = sORIGIN
                      /\ Len(dec[rg.from + 1].objs) >= 1 /\ Len(orgs) >= 1 /\ dec[rg.from + 1].objs[1].name # orgs[1].name
                   THEN {"C09.DefiningOriginFirst"} ELSE {}
+             : k \in { x \in DOMAIN rgs : x <= Len(lfs) } }
+  \* the FILE-HEADER object carries the defining origin's reference
+  \cup UNION { LET hdr == dec[rgs[k].from]  d == DefOrigin(dec, rgs, lfs, cobj, lfs[k].lf) IN
+               IF Len(hdr.objs) = 1 /\ d # -1 /\ hdr.objs[1].origin # d THEN Flag("C07.OriginChosen", << "FILE-HEADER", hdr.objs[1].origin, d >>) ELSE {}
              : k \in { x \in DOMAIN rgs : x <= Len(lfs) } }
   \cup UNION { LET hdr == dec[rgs[k].from] IN
                IF Len(hdr.objs) # 1 THEN {}
